@@ -209,6 +209,7 @@ fn handle_fn(repo: &str, req: &Value, global: &Value) -> Result<Value, String> {
         "fingerprint": info.fingerprint,
         "original_tokens": original,
         "lifted": info.lifted_text,
+        "binders": info.binders,
     }))
 }
 
